@@ -5,6 +5,7 @@ import (
 	"errors"
 	"fmt"
 	"io"
+	"net"
 	"regexp"
 	"strconv"
 
@@ -316,6 +317,9 @@ func runC10(c *sim.Ctx) *sim.Violation {
 	fe, _ := link.NewFaultErr(c, fmt.Sprintf("writer failure #%d", c.Seq()))
 	E = fe
 	wireE := fe.Wire()
+	if _, isOp := wireE.(*net.OpError); isOp {
+		E = wireE
+	}
 	w2 := link.NewWriter(c)
 	w2.Kind, w2.Err = 1, wireE
 	if pi := sim.Guard(func() { n, err = p.WriteTo(wr(w2)) }); pi != nil {
